@@ -481,6 +481,15 @@ func runC08(c *Ctx, r *Report) {
 						if st, ok := ins.(*ssa.Store); ok {
 							if fv, _ := fieldOf(st.Addr); fv == f && len(sf.Params) == 2 && backSlice(st.Val, nil)[sf.Params[1]] {
 								okStore = true
+								// a setter replaces: what it stores must not depend on what the field held before (a decoder
+								// fills a fresh object through it, and a "never backwards"/merging setter keeps the zero value)
+								for v := range backSlice(st.Val, nil) {
+									if u, ok := v.(*ssa.UnOp); ok && u.Op == token.MUL {
+										if fv2, _ := fieldOf(u.X); fv2 == f {
+											reshaped = p.Pos(st.Pos()) + " (the stored value is computed from the field's previous value)"
+										}
+									}
+								}
 								// a list setter must keep the list's shape: append(nil, list...) turns an empty list into nil,
 								// which the codec writes as null instead of []
 								if call, ok := st.Val.(*ssa.Call); ok {
@@ -494,7 +503,7 @@ func runC08(c *Ctx, r *Report) {
 						}
 					})
 					if reshaped != "" {
-						r.Violate("R-C08.8", r.Key("R-C08.8", fn, "setter-shape", f.Name()), fn.Body.Pos(), name+" stores append(nil, list...) (at "+reshaped+"): an empty list handed in becomes nil, so a decoded entry whose list is empty re-encodes as null — another identifier than the one it was read from")
+						r.Violate("R-C08.8", r.Key("R-C08.8", fn, "setter-shape", f.Name()), fn.Body.Pos(), name+" does not store its argument as it is (at "+reshaped+"): an empty list handed in becomes nil, or the value is merged with what the field held — a decoded entry then differs from the block it was read from and re-encodes to another identifier")
 					}
 					r.Check(okStore, "R-C08.8", r.Key("R-C08.8", fn, "setter", f.Name()), fn.Body.Pos(), name+" stores its argument in "+f.Name(),
 						name+" does not store its argument in the field "+f.Name()+": entries filled by the decoders lose that field, so an entry read back differs from the one written")
